@@ -28,7 +28,7 @@ for cid in sorted(CHECKS):
             return 'n/a'
         cov = e['coverage']
         return '%s / %.0f s%s' % ('{:,}'.format(cov.get('evaluations', 0)), e['wall_s'], '' if tier == 'quick' else (' / yes' if cov.get('exhaustive') else ' / capped'))
-    rows.append('| %s | %s | %s | %s | %s | %s |' % (cid, c['engine'], c['bound']['quick'], fmt(q, 'quick'), c['bound']['thorough'], fmt(t, 'thorough')))
+    rows.append('| %s | %s | %s | %s | %s | %s |' % (cid, c['engine'], c['bound']['quick'].replace('|', '/'), fmt(q, 'quick'), c['bound']['thorough'].replace('|', '/'), fmt(t, 'thorough')))
 bounds = '\n'.join(rows) + '\n\n"executions" = evaluations of the real code (transitions of object states, evalArguments calls, schedules, histories, rendered messages - see each evidence file\'s `rule`).'
 
 # ---- findings
